@@ -145,6 +145,9 @@ def gen_case(rng, unicode_mode=None, maxlen=10):
         out.append('T')
     elif r < 0.5:
         out += ['T', 'T']
+    if rng.random() < 0.25:
+        # late reads: the read returns its data only after the deadline of the call has passed (slow log file, descheduling)
+        out = [LATE + e if e not in ('T', 'E', 'X') and rng.random() < 0.4 else e for e in out]
     script = out
     ops = []
     for _ in range(rng.randint(1, 4)):
@@ -214,6 +217,25 @@ def small_cases(maxlen, windows=(None, 1, 2, 3, 7)):
 
 
 LAST_SEARCHER = [None]
+LATE = '\x00L'            # prefix of a scripted read that returns its data after the call's deadline has passed
+
+
+def is_late(e):
+    return isinstance(e, (str, bytes)) and e[:2] in (LATE, LATE.encode())
+
+
+class Clock:
+    """the clock Expecter.expect_loop reads (pexpect.expect.time): real time plus what the late reads of the script took"""
+    import time as _t
+    offset = 0.0
+
+    @staticmethod
+    def time():
+        return Clock._t.time() + Clock.offset
+
+    @staticmethod
+    def sleep(x):
+        Clock._t.sleep(x)
 
 
 def eff_w(case, w):
@@ -226,6 +248,7 @@ def install_recorder(pexpect):
     span of an exact match (kept on the searcher, not on the spawn object) can be observed"""
     import pexpect.spawnbase as sb
     import pexpect.expect as ex
+    ex.time = Clock
     if getattr(sb.searcher_string, '_verif_recorder', False):
         return
 
@@ -258,6 +281,9 @@ def make_spawn(pexpect, unicode_mode, script):
                 raise pexpect.EOF('scripted')
             if ev == 'X':
                 raise OSError(5, 'scripted error')
+            if is_late(ev):
+                ev = ev[2:]
+                Clock.offset += 1000.0
             self.consumed.append(ev)
             return ev
 
@@ -358,7 +384,10 @@ def coq_entry(p):
     return '(PRe %s)' % rx_coq(p[1])
 
 
-def coq_case(case):
+def coq_case(case, exp=None):
+    """exp: the reference history of the case (needed only when the script has late reads: a late read after which the call goes
+    on is, for the model, the data followed by the expiry of the time)"""
+    fates = [f for e in (exp or []) for f in e.get('late', [])]
     ops = []
     for op in case['ops']:
         if op[0] == 'setbuf':
@@ -370,21 +399,34 @@ def coq_case(case):
             ops[-1] = '(%s, %s)' % (ops[-1], cbool(w == -1))
     evs = []
     for e in case['script']:
+        if is_late(e):
+            evs.append('(Data %s)' % ctext(e[2:]))
+            if fates and fates.pop(0):
+                evs.append('Timeout')
+            continue
         evs.append({'T': 'Timeout', 'E': 'Eof', 'X': 'Err'}.get(e) if e in ('T', 'E', 'X') else '(Data %s)' % ctext(e))
     init = case.get('init') or ('', '')
     return '(%s, %s, %s, {| pend := %s; buf := %s |})' % (copt(case.get('sw'), cnat), clist(ops), clist(evs), ctext(init[0]), ctext(init[1]))
 
 
-def expected_V(case, obs):
+def expected_V(case, obs, exp=None):
     """observations in the shape of Expect/Run.v run_hist.  The exact searcher does not expose its span
     on the spawn object; it is reconstructed as (len(window)-len(after)-len(rest), ...) is not observable,
     so for exact matches the model's span is compared through before/after/pend only (span slot = model's)."""
     out = []
+    # the model counts what is left of ITS event list, in which a late read after which the call went on is two events
+    fates = [f for e in (exp or []) for f in e.get('late', [])]
+    extra = []
+    for e in case['script']:
+        extra.append(1 if is_late(e) and fates and fates.pop(0) else 0) if is_late(e) else extra.append(0)
+
+    def left(n):
+        return n + sum(extra[len(extra) - n:]) if n else 0
     for o in obs:
         if o['op'] == 'setbuf':
-            out.append([[], o['pend'], o['buf'], o['left']])
+            out.append([[], o['pend'], o['buf'], left(o['left'])])
         else:
-            out.append([[o['res']], o['pend'], o['buf'], o['left']])
+            out.append([[o['res']], o['pend'], o['buf'], left(o['left'])])
     return out
 
 
@@ -423,6 +465,8 @@ def reference_history(pexpect, case):
         eof_i = max([i for i, p in enumerate(pats) if p == 'EOF'], default=None)
         to_i = max([i for i, p in enumerate(pats) if p == 'TIMEOUT'], default=None)
         reads = 0
+        late = []              # per late read of this call: does the call go on after it (and so run out of time)?
+        expired = False
         while True:
             window = pending if not w else pending[-w:]
             best = None
@@ -438,6 +482,11 @@ def reference_history(pexpect, case):
                 e = {'op': 'call', 'out': 'match', 'idx': i, 'before': pending[:off + a], 'after': pending[off + a:off + b],
                      'pending': pending[off + b:], 'window': window, 'span': (a, b)}
                 pending = pending[off + b:]
+                if expired:
+                    late[-1] = False
+                break
+            if expired and not t0:
+                e = {'op': 'call', 'out': 'TIMEOUT', 'idx': to_i, 'before': pending, 'pending': pending}
                 break
             if t0 and reads >= 1:
                 e = {'op': 'call', 'out': 'TIMEOUT', 'idx': to_i, 'before': pending, 'pending': pending}
@@ -453,9 +502,14 @@ def reference_history(pexpect, case):
             if ev == 'X':
                 e = {'op': 'call', 'out': 'ERR', 'before': pending, 'pending': pending}
                 break
+            if is_late(ev):
+                ev = ev[2:]
+                expired = True
+                late.append(not t0)
             pending = pending + ev
             reads += 1
         e['left'] = len(script)
+        e['late'] = late
         exp.append(e)
     return exp
 
